@@ -33,6 +33,7 @@ type c17cfg struct {
 	tcpSeen map[int][][]byte // call -> queries seen on TCP
 	tcpDials int
 	tcpDialsByCall map[int]int
+	tcpSent     map[int][]byte // last TCP reply bytes sent for this call
 	tcpAnswered map[int]bool // the TCP server wrote a reply for this call
 	tcpKilled   map[int]bool // the TCP server died while handling this call
 	refusedAt   []int        // steps at which a TCP dial was refused
@@ -44,7 +45,7 @@ type c17cfg struct {
 func c17Setup(rc *RunCtx) simrt.Config {
 	r := rc.R
 	cfg, sname := drawSimConfig(r, 30000)
-	c := &c17cfg{udpSent: map[int][]byte{}, udpTC: map[int]bool{}, tcpSeen: map[int][][]byte{}, tcpDialsByCall: map[int]int{}, tcpAnswered: map[int]bool{}, tcpKilled: map[int]bool{}}
+	c := &c17cfg{tcpSent: map[int][]byte{}, udpSent: map[int][]byte{}, udpTC: map[int]bool{}, tcpSeen: map[int][][]byte{}, tcpDialsByCall: map[int]int{}, tcpAnswered: map[int]bool{}, tcpKilled: map[int]bool{}}
 	c.callers = 1 + r.Choose(4)
 	for i := 0; i < c.callers; i++ {
 		c.perCall = append(c.perCall, 1+r.Choose(4))
@@ -154,7 +155,17 @@ func c17Main(rc *RunCtx) {
 				return
 			}
 			b, info := w.MakeReply(q, ReplyInfo{Call: call.Idx, Conn: sc.ID, WireID: wid, Kind: "tcp"}, false, 0)
+			if simrt.Choose(2) == 0 {
+				// the TCP reply is what the caller gets, whatever its header flags say
+				// (TC included)
+				b[2] = byte(simrt.Choose(256))
+				b[3] = byte(simrt.Choose(256))
+				if b[2]&0x02 != 0 {
+					simrt.Fault("tcp_reply_with_tc_bit")
+				}
+			}
 			c.tcpAnswered[call.Idx] = true
+			c.tcpSent[call.Idx] = append([]byte(nil), b...)
 			sc.WriteMsg(b, info)
 		}
 	})
@@ -224,6 +235,10 @@ func c17Check(rc *RunCtx, c *c17cfg, x *Call) {
 			}
 			if len(seen) == 0 {
 				rc.Fail("tcp_retry_missing", "call %d: TC set but the query never appeared on TCP", x.Idx)
+				return
+			}
+			if ts := c.tcpSent[x.Idx]; ts != nil && len(seen) == 1 && (len(ts) != len(x.Resp) || !bytes.Equal(ts[2:], x.Resp[2:])) {
+				rc.Fail("tcp_reply_altered", "call %d: returned reply differs from the TCP reply: % x vs % x", x.Idx, x.Resp, ts)
 				return
 			}
 			simrt.Probe("c17.tcp_answer_returned")
